@@ -21,7 +21,7 @@ def run(ctx):
     formula.r_params(ctx)       # the conditions are written with the parameters the user gave
     formula.r_regen(ctx)        # stale conditions (of other parameters / samples) exclude members of the current class
     formula.r_statpair(ctx)     # the stationary sample a family invents is a fresh one
-    c07.r_lookup_and_separate(ctx)  # two queries share a recorded sample only when they are the same point (equal pruned decompositions)
-    c07.r_stat(ctx)             # ... and so is the one the user asks for: fresh point, zero gradient, fresh value (a shared value equates f at two stationary points)
+    c07.with_system(ctx, c07.r_lookup_and_separate)  # two queries share a recorded sample only when they are the same point (equal pruned decompositions)
+    c07.with_system(ctx, c07.r_stat)             # ... and so is the one the user asks for: fresh point, zero gradient, fresh value (a shared value equates f at two stationary points)
     ctx.floor("class families", len(ca.families), 20)
     ctx.floor("class conditions", n, 32)
